@@ -112,7 +112,7 @@ func matchPrinted(printed string, want [][]string) string {
 func c09Families(tier fw.Tier) []docFamily {
 	return cachedFamilies("c09/"+string(tier), func() []docFamily {
 		var fs []docFamily
-		for _, f := range c01Families(tier) {
+		for _, f := range sharedFamilies(tier) {
 			switch f.name {
 			case "FA1", "FA2", "FA3", "FB", "FC-time", "FC-duration", "FD1":
 				fs = append(fs, f)
